@@ -189,7 +189,20 @@ def reparser(d):
     cls = AHP.IndexedAdvancedHTMLParser if d.get('rekind') == 'indexed' else AHP.AdvancedHTMLParser
     p2 = cls(encoding=d['enc']) if d.get('enc') else cls()
     if d.get('reuse'):
-        p2.parseStr('<!DOCTYPE html PUBLIC "old"><section class="old"><i>junk<b>')
+        # what the object parsed before: a whole other document / inputs that leave no element behind but are not nothing
+        # (a doctype alone, an input cut inside its first tag, a stray end tag, blank text)
+        before = {True: '<!DOCTYPE html PUBLIC "old"><section class="old"><i>junk<b>', 'doctype': '<!DOCTYPE old>',
+                  'cut': '<section class="old" title="', 'stray': '</i>', 'blank': ' \n'}[d['reuse']]
+        try:
+            p2.parseStr(before)
+        except Exception:       # noqa
+            pass
+    prov = d.get('reprov')
+    if prov:
+        # the parser object is a copy: unpickled, copy.copy, copy.deepcopy of a new (or used) parser
+        import copy
+        import pickle
+        p2 = {'pickle': lambda x: pickle.loads(pickle.dumps(x)), 'copy': copy.copy, 'deepcopy': copy.deepcopy}[prov](p2)
     return p2
 
 
@@ -339,6 +352,10 @@ class Check(PropCheck):
             d['via'] = ('api', 'parse', 'edited')[i % 3] if i % 6 != 4 else 'api'
             if i % 4 == 1:
                 d['reuse'] = True       # the serialisation is parsed by a parser object that parsed another document before
+                if i % 8 == 5:
+                    d['reuse'] = ('doctype', 'cut', 'stray', 'blank')[(i // 8) % 4]
+            if i % 9 == 7:
+                d['reprov'] = ('pickle', 'copy', 'deepcopy')[(i // 9) % 3]     # ... by a copied / unpickled parser object
             if i % 5 == 2:
                 d['refile'] = True      # the serialisation goes through a file and parseFile(path)
             if i % 6 == 1:
@@ -464,7 +481,7 @@ class Check(PropCheck):
     def features(self, d):
         if d['via'] == 'lex':
             return ['via:lex']
-        fs = set((['reused-parser'] if d.get('reuse') else []) + [f for f in ('refile', 'create') if d.get(f)] + (['reparse:indexed'] if d.get('rekind') else []) + (['encoding:' + d['enc']] if d.get('enc') else []) + ['via:' + d['via'], 'doctype' if d['doctype'] else 'no-doctype',
+        fs = set((['reused-parser' + ('' if d.get('reuse') is True else ':' + str(d.get('reuse')))] if d.get('reuse') else []) + (['reparse-object:' + d['reprov']] if d.get('reprov') else []) + [f for f in ('refile', 'create') if d.get(f)] + (['reparse:indexed'] if d.get('rekind') else []) + (['encoding:' + d['enc']] if d.get('enc') else []) + ['via:' + d['via'], 'doctype' if d['doctype'] else 'no-doctype',
                   'single-root' if (len(d['blocks']) == 1 and d['blocks'][0][0] == 'e') else 'multi-root'])
 
         def walk(b, depth):
@@ -536,7 +553,7 @@ class Check(PropCheck):
             yield dict(d, reuse=False)
         if d.get('enc'):
             yield {k: v for k, v in d.items() if k != 'enc'}
-        for flag in ('refile', 'rekind', 'create'):
+        for flag in ('refile', 'rekind', 'create', 'reprov', 'late'):
             if d.get(flag):
                 yield {k: v for k, v in d.items() if k != flag}
 
